@@ -303,7 +303,7 @@ func c19Verdict(c *c19Case, o *c19Obs, s *vs.Sched) (string, string) {
 		return "unfinished", fmt.Sprintf("%+v", *c)
 	}
 	if len(o.violations) > 0 {
-		return "gauge", fmt.Sprintf("%+v: %v", *c, o.violations)
+		return "exporter-telemetry", fmt.Sprintf("%+v: %v", *c, o.violations)
 	}
 	if o.sent+o.failed+o.enq != o.given-o.stored {
 		desc := fmt.Sprintf("%+v: given=%d sent=%d send_failed=%d enqueue_failed=%d still-stored=%d backend-calls=%d", *c, o.given, o.sent, o.failed, o.enq, o.stored, o.calls)
